@@ -126,6 +126,11 @@ Theorem decoder_total_js_string_template : total_on all_bytes run_jsstring.
 Proof. exact total_js_string_template. Qed.
 Print Assumptions decoder_total_js_string_template.
 
+(* ... and the same scan re-entered by RescanCloseBraceAsTemplateToken (template middle / tail after "}") *)
+Theorem decoder_total_js_template_rescan : total_on (fun t => all_bytes t /\ 1 <= len t) run_jstemplate_tail.
+Proof. exact total_js_template_rescan. Qed.
+Print Assumptions decoder_total_js_template_rescan.
+
 (* Lexer.ScanRegExp (class brackets, escapes, flags incl. the duplicate-flag scan): every byte string and
    every identifier-continue classification that rejects the eof sentinel *)
 Theorem decoder_total_js_ScanRegExp : forall idc, idc eof = false -> total_on all_bytes (run_regexp idc).
